@@ -272,9 +272,13 @@ func ruleMappingRule(c *Ctx, r *Report, rule string) {
 	// Name first
 	firstCall := ""
 	for _, s := range cb.Body.List {
+		// err := setField(...)   or   if err := setField(...); err != nil {
+		if ifs, ok := s.(*ast.IfStmt); ok && ifs.Init != nil {
+			s = ifs.Init
+		}
 		if as, ok := s.(*ast.AssignStmt); ok && len(as.Rhs) == 1 {
 			if call, ok := as.Rhs[0].(*ast.CallExpr); ok {
-				if id, ok := call.Fun.(*ast.Ident); ok && id.Name == "setField" && firstCall == "" {
+				if c.isFieldSetterCall(call) && firstCall == "" {
 					if s0, isS := c.strConst(call.Args[0]); isS {
 						firstCall = s0
 					}
